@@ -929,7 +929,11 @@ def make_case(spec):
         return gen.gen_side_b(rng, dn, gen.exit_plan(spec[2]))
     if kind == "err":
         rng = core.case_rng(PROP, spec[2], dn + "/err")
-        return gen.gen_side_b(rng, dn, "err=" + gen.err_text(rng))
+        c = gen.gen_side_b(rng, dn, "err=" + gen.err_text(rng))
+        if spec[2] % 2 == 1:
+            # the queue program may produce its text with more than one write
+            c["env"] = dict(c["env"], NQV_QQ_ERRSPLIT=str(rng.choice([1, 1, 2, 3, 9])))
+        return c
     if kind == "sig":
         rng = core.case_rng(PROP, spec[2] * 1000 + spec[3], dn + "/sig")
         return gen.gen_side_b(rng, dn, "sig=%d" % spec[2])
